@@ -21,6 +21,7 @@ import (
 	"github.com/irai/packet"
 	"github.com/irai/packet/fastlog"
 	"pvharness/cmd/c01/pgen"
+	"pvharness/cmd/c01/punit"
 	"pvharness/lib"
 )
 
@@ -146,6 +147,8 @@ func main() {
 	r.Register("wt", writeThrough)
 	r.Register("alloc", allocs)
 	// calls BRANCH -> the set of functions that branch of Session.Parse calls, from the source (calls.go)
+	// ppa FAM MS tok..: allocations of every single Parse call with a ping pending (cmd/c01/punit, mode alloc)
+	r.Register("ppa", func(a []string) string { o, _ := punit.RunPingMode(a, "alloc"); return o })
 	r.Register("calls", func(a []string) string {
 		m, ok := sourceCalls()
 		if !ok {
@@ -264,4 +267,14 @@ func main() {
 			}
 		}
 	})
+	// last: stateful measurements with a ping pending (a failure may leave the process-global waiter table locked)
+	for _, args := range punit.AllocHistories() {
+		obs, poisoned := punit.RunPingMode(args, "alloc")
+		r.Case("ppa", args, obs)
+		r.Stat("class.ppa.v"+args[0], 1)
+		if poisoned {
+			r.Stat("ppa.poisoned", 1)
+			break
+		}
+	}
 }
